@@ -82,6 +82,17 @@ claim("C15", "other",
       "Trusted: resolved call graph of the crate (external crates only by callee name patterns: OsRng, getrandom, SystemTime, thread_rng, ...), value-flow engine.",
       "effect analysis over the resolved call graph + field-write and provenance rules on MIR (custom rustc_private lint)")
 
+claim("C03", "other",
+      "Decides two necessary conditions named in the property's mechanisms, for every compiled program because they are decided on the compiler's code: outputs go only to listed parties - in reveal_output no Send is reachable with an empty party list, the first receiver derives from output_parties, every further Send is guarded by output_parties.contains(Party(x)) for the x that becomes the receiver (C03.R); in the masking protocols the property names (resharing, oblivious transfer, both truncations, input sharing) every message has a PRF/random/zero-share term in its additive closure (C03.M; payloads of all other Send sites are classified in the evidence for information only). The distributional statement itself (views are identically distributed) is NOT decided, nor that the mask is unknown to the receiver.",
+      "DESIGN.md section 3, C03",
+      "Trusted: value-flow engine with an additive closure (add/subtract/sum/nop), closure-result summarisation, the list of masking protocols taken from the property's mechanism list.",
+      "guard reachability by abstract interpretation + additive-closure provenance on MIR (custom rustc_private lint)")
+claim("C07", "other",
+      "Decides the clause 'a body that draws randomness is instantiated afresh for every inlined copy' through its mechanism, the ephemeral binding discipline, on every control-flow path of all 7 binding sites in inline/**: assign_input_nodes -> exactly one recursively_inline_graph -> unassign_nodes of the same graph before the next binding, loop back edge or normal return (C07.B); recursively_inline_graph skips a node only if it is bound (then it is an Input or the function diverges) and otherwise always creates a node; unassign_nodes removes every bound node (C07.F). Equivalence of the inlined graph, prefix-sum strategies and vector lengths 0/1/16 are NOT decided.",
+      "DESIGN.md section 3, C07",
+      "Trusted: MIR CFG, recognition of error exits, abstract interpreter for the assumed membership-test outcomes.",
+      "typestate (pairing/ordering) rule on MIR CFGs (custom rustc_private lint)")
+
 ALL = ["C%02d" % i for i in range(1, 21)]
 
 def main():
